@@ -111,6 +111,12 @@ func loadProg(root string, patterns []string) (*Prog, error) {
 						}
 						continue
 					}
+					if c.Key == "$symbolic" {
+						for _, f := range c.ModText {
+							symbolicTypes[pk.PkgPath+"."+f] = true
+						}
+						continue
+					}
 					if c.IsDef {
 						p.defs[pk.PkgPath+"."+c.Key] = c
 						continue
